@@ -92,6 +92,13 @@ CHECKS = {
    text="Delivery to the pod interface, egress via the owning ENI and its gateway, exactly one default route per enabled family, nothing for a disabled family, teardown removes all and only the pod's state - as guards of the Setup/Teardown actions evaluated on what the implementation actually produced (nic.Conf values at level 1, kernel rules/routes/links at level 2).",
    design_ref="DESIGN.md 4.6, 5 (C13), 11.6",
    note="The sandbox kernel lacks ipvlan, 802.1q vlan, prio qdisc and u32/vlan tc actions: ipvlan/vlan datapaths and tc parts are decided at level 1 only; the Fib model itself is compared with the kernel's route lookups in the thorough tier; needs root for unshare -n."),
+
+ "C02": dict(
+   technique="TLA+ spec Ipam.tla (Node CR record, cloud, pods, NodeRuntime; Enforce-tagged guards) model-checked by TLC; TLC-simulated + directed + random scenarios drive the real ReconcileNode together with the real daemon side (CRDV2, NodeRuntime sync) on a fake API server + fake cloud; the whole Node CR is logged after every reconcile and validated by TLC",
+   category="model_checking",
+   text="Binding invariants of the published per-node record (one pod per address, one address per family per pod, dual stack on one interface, new bindings only on Valid addresses of InUse interfaces, RDMA segregation, take-over of reported addresses) are evaluated by TLC on every recorded Node CR and every reconcile step.",
+   design_ref="DESIGN.md 4.3, 5 (C02), 11.6",
+   note="Fresh reads (no informer staleness); environment with cloud drift and partially bound initial records; EFLO path not covered."),
 }
 
 NA_REASON = "not built yet in this round of work; see DESIGN.md section 10 (build order) - the property is planned to be decided by the TLA+ pipeline"
